@@ -276,6 +276,10 @@ type vhMeltQuote struct {
 	Amount, FeeReserve uint64
 	State              nut05.State
 	Outcome            int // scripted outcome of the payment: 0 paid, 1 pending, 2 failed (unpaid)
+	GiveChange         bool   // NUT-08 supported by this mint (harnesses that do not set it see a mint without change, as gonuts' own mint)
+	ActualFee          uint64 // what the payment really cost (<= FeeReserve); the rest is returned as NUT-08 change
+	Change             cashu.BlindedSignatures
+	Blank              cashu.BlindedMessages // blank outputs of the melt request
 	Lose               int // transport fault on POST /v1/melt/bolt11: 0 none, 1 the request never reaches the mint, 2 the response is lost
 }
 
@@ -403,6 +407,19 @@ func (m *vhMint) sign(outs cashu.BlindedMessages) (cashu.BlindedSignatures, bool
 	return sigs, true
 }
 
+// NUT-08: the part of the fee reserve the payment did not need is returned on the blank outputs of the melt request
+// (stated bound: reserve <= 2, so the overpaid fee is a single denomination)
+func (m *vhMint) giveChange(q *vhMeltQuote) {
+	if !q.GiveChange || q.FeeReserve <= q.ActualFee || len(q.Blank) == 0 || len(q.Change) > 0 {
+		return
+	}
+	o := q.Blank[0]
+	o.Amount = q.FeeReserve - q.ActualFee
+	if sigs, ok := m.sign(cashu.BlindedMessages{o}); ok {
+		q.Change = sigs
+	}
+}
+
 func (m *vhMint) isSpent(secret string) bool {
 	r := false
 	for _, s := range m.Spent {
@@ -512,7 +529,7 @@ func vhHTTP(method, url string, body []byte) (int, []byte) {
 		if !ok {
 			return vhErr("quote does not exist", cashu.MeltQuoteErrCode)
 		}
-		return vhJSON(200, &nut05.PostMeltQuoteBolt11Response{Quote: id, Amount: q.Amount, FeeReserve: q.FeeReserve, State: q.State, Unit: "sat", Expiry: 1 << 40})
+		return vhJSON(200, &nut05.PostMeltQuoteBolt11Response{Quote: id, Amount: q.Amount, FeeReserve: q.FeeReserve, State: q.State, Unit: "sat", Expiry: 1 << 40, Change: q.Change})
 	case path == "/v1/melt/bolt11":
 		var req nut05.PostMeltBolt11Request
 		if err := json.Unmarshal(body, &req); err != nil {
@@ -536,6 +553,7 @@ func vhHTTP(method, url string, body []byte) (int, []byte) {
 		if in < q.Amount+q.FeeReserve+m.fee(req.Inputs) {
 			return vhErr("insufficient inputs", cashu.InsufficientProofAmountErrCode)
 		}
+		q.Blank = req.Outputs
 		switch q.Outcome {
 		case 0:
 			q.State = nut05.Paid
@@ -543,6 +561,7 @@ func vhHTTP(method, url string, body []byte) (int, []byte) {
 				m.Spent = append(m.Spent, p.Secret)
 				m.SpentAmounts = append(m.SpentAmounts, p.Amount)
 			}
+			m.giveChange(q)
 		case 1:
 			q.State = nut05.Pending
 		default:
@@ -552,7 +571,7 @@ func vhHTTP(method, url string, body []byte) (int, []byte) {
 			q.Lose = 0
 			return 502, []byte("bad gateway")
 		}
-		return vhJSON(200, &nut05.PostMeltQuoteBolt11Response{Quote: req.Quote, Amount: q.Amount, FeeReserve: q.FeeReserve, State: q.State, Unit: "sat", Preimage: "00"})
+		return vhJSON(200, &nut05.PostMeltQuoteBolt11Response{Quote: req.Quote, Amount: q.Amount, FeeReserve: q.FeeReserve, State: q.State, Unit: "sat", Preimage: "00", Change: q.Change})
 	case path == "/v1/checkstate":
 		var req nut07.PostCheckStateRequest
 		if err := json.Unmarshal(body, &req); err != nil {
